@@ -339,6 +339,14 @@ func c20Exec(t c20Task) c20Result {
 	report := func(in []byte, desc string, typeName string) {
 		err, pv, stk, alloc := c20Try(dec, in)
 		res.Evals++
+		// TotalAlloc is process-wide: the worker's own plumbing (result encoding, timers) can allocate
+		// during the measured call. Decoding is deterministic, so an over-allocation that is real shows
+		// again; take the smallest of up to four measurements before holding it against the decoder.
+		for i := 0; i < 3 && pv == nil && alloc > allocBound(len(in)); i++ {
+			if _, pv2, _, a2 := c20Try(dec, in); pv2 == nil && a2 < alloc {
+				alloc = a2
+			}
+		}
 		var v *core.Violation
 		switch {
 		case pv != nil && strings.HasPrefix(fmt.Sprint(pv), "decoder does not return"):
@@ -621,7 +629,7 @@ func runC20() int {
 	rep.Coverage["transitions"] = evals
 	rep.Coverage["traces_validated_against_impl"] = evals
 	rep.Coverage["rule"] = fmt.Sprintf("enumeration: for up to 4 boundary-rich valid encodings of each of the 37 client payload types and for valid stored records (peers, reorg, unconfirmed, block tx file, tx state, block headers) EVERY byte offset is overwritten by each of %d hostile counts/lengths (varints 2^16, 2^31-1, 2^31, 2^32, 2^63, 2^64-1, 0xfc, 1, 0; non-canonical wide forms; 32-bit little-endian 2^32-1, 2^31-1, 2^31, 2^16), once keeping the tail and once truncated; plus every byte string of length <= %d over {00,01,7f,80,fd,fe,ff,30} behind every type code. Each input is decoded in a worker with a 3 GB address-space limit; oracle: no panic, bytes allocated (runtime counters) <= 64*len+32KiB, worker survives (a killed worker is bisected to the single input). distinct = inputs (all distinct by construction)", len(hostileSplices()), shortDepth)
-	rep.Assumptions = []string{"allocation is measured with runtime.MemStats.TotalAlloc around the call (includes transient allocations)"}
+	rep.Assumptions = []string{"allocation is measured with runtime.MemStats.TotalAlloc around the call (includes transient allocations; minimum of up to four measurements when the bound is exceeded, because the counter is process-wide)"}
 	return rep.Finish()
 }
 
